@@ -302,6 +302,14 @@ func (p *printVisitor) EnterOperationDefinition(ref int) {
 	hasVariables := p.document.OperationDefinitions[ref].HasVariableDefinitions
 	// the shorthand form `{...}` can neither carry directives nor a description
 	needsKeyword := p.document.OperationDefinitions[ref].HasDirectives || p.document.OperationDefinitions[ref].Description.IsDefined
+	// behind a type system definition the `{` of the shorthand form would be read as the body of that definition
+	for i := 1; i < len(p.document.RootNodes) && !needsKeyword; i++ {
+		if p.document.RootNodes[i].Kind == ast.NodeKindOperationDefinition && p.document.RootNodes[i].Ref == ref {
+			before := p.document.RootNodes[i-1].Kind
+			needsKeyword = before != ast.NodeKindOperationDefinition && before != ast.NodeKindFragmentDefinition
+			break
+		}
+	}
 
 	switch p.document.OperationDefinitions[ref].OperationType {
 	case ast.OperationTypeQuery:
